@@ -47,6 +47,12 @@ def build(spec):
         acl = A.build_acl(acl_case, note=note, input=list(spec.get("input") or []), output=list(spec.get("output") or []))
         for i, o in enumerate(A.flat_items(acl.items)):
             o.note = Note(["item", i])
+        if spec.get("retext") and not acl_case.get("group_by"):
+            # the text of one remark assigned through its text attribute after the ACL was built
+            rems = [x for x in A.flat_items(acl.items) if isinstance(x, C.Remark)]
+            txt = spec["retext"][1]
+            if rems and isinstance(txt, str) and txt and txt == " ".join(txt.split()):
+                rems[spec["retext"][0] % len(rems)].text = txt
         if kind == "acl":
             if spec.get("block") and not acl_case.get("group_by") and len(acl.items) >= 1:
                 # an explicit block with its OWN prefix / name among the plain entries of an ungrouped ACL
@@ -75,6 +81,14 @@ def build(spec):
         text = spec["text"]
         if not text or text != " ".join(text.split()):
             raise Invalid()
+        if spec.get("ctor") == "text-keyword":
+            rem = C.Remark(text=text, platform=platform, note=note)
+            rem.sequence = spec.get("seq") or 0
+            return rem
+        if spec.get("ctor") == "text-setter":
+            rem = C.Remark(f"{spec.get('seq') or ''} remark x".strip(), platform=platform, note=note)
+            rem.text = text
+            return rem
         return C.Remark(f"{spec.get('seq') or ''} remark {text}".strip(), platform=platform, note=note)
     if kind == "address":
         G.validate_addr(spec["a"])
@@ -96,7 +110,8 @@ def build(spec):
             return C.AddressAg(member_text(members[0], platform, 0, spec.get("seq", 0) if platform == "nxos" else 0),
                                platform=platform, note=note)
         head = ("object-group network " if platform == "ios" else "object-group ip address ") + "G"
-        body = [member_text(m, platform, i) for i, m in enumerate(members)]
+        seqs = spec.get("seqs") or [0]
+        body = [member_text(m, platform, i, seqs[i % len(seqs)] if platform == "nxos" else 0) for i, m in enumerate(members)]
         extra = {"max_ncwb": spec["max_ncwb"]} if spec.get("max_ncwb") is not None else {}
         if spec.get("wide") and platform == "nxos":
             body.append("10.0.0.0 0.255.255.128")  # 17 non-contiguous bits: needs max_ncwb > 16
@@ -108,6 +123,16 @@ def build(spec):
             grp = C.AddrGroup(head + "\n" + "\n".join(" " + s for s in body), platform=platform, note=note)
         for j, m in enumerate(grp.items):
             m.note = Note(["member", j])
+        # reordered in place before it is copied (numbered members no longer in the order of their numbers)
+        pre = spec.get("pre")
+        if pre == "reverse":
+            grp.items.reverse()
+        elif pre == "sort":
+            grp.sort()
+        elif pre == "rotate" and len(grp.items) > 1:
+            grp.items.insert(0, grp.items.pop())
+        elif pre is not None:
+            raise Invalid()
         return grp
     if kind == "port":
         c08.validate_case(spec["port"])
@@ -387,6 +412,8 @@ def obj_st(draw, small_acl=False):
             spec["acl"]["group_by"] = ""
         if kind == "acl" and draw(st.sampled_from([True, False, False])):
             spec["block"] = [draw(st.integers(0, 5)), draw(st.sampled_from([0, 1, 1, 2, 3]))]
+        if draw(st.sampled_from(range(4))) == 0:
+            spec["retext"] = [draw(st.integers(0, 5)), draw(G.remark_text_st())]
         spec["input"] = draw(st.lists(st.sampled_from(["interface Eth1", "interface Eth2"]), max_size=2, unique=True))
         spec["output"] = draw(st.lists(st.sampled_from(["interface Eth3"]), max_size=1))
     elif kind == "ace":
@@ -395,6 +422,7 @@ def obj_st(draw, small_acl=False):
     elif kind == "remark":
         spec["text"] = draw(G.remark_text_st())
         spec["seq"] = draw(st.sampled_from([0, 10]))
+        spec["ctor"] = draw(st.sampled_from(["line", "line", "text-keyword", "text-setter"]))
     elif kind == "address":
         a = draw(G.addr_st(kmax=3, groups=True))
         spec["a"] = a if a["k"] == "group" else G.native_addr(G.addr_pair(a), platform)
@@ -406,6 +434,9 @@ def obj_st(draw, small_acl=False):
             mem.append([draw(G.base_st()) & ~w & R.ALL1, w])
         spec["members"] = mem
         spec["seq"] = draw(st.sampled_from([0, 10]))
+        if kind == "addrgroup":
+            spec["seqs"] = draw(st.sampled_from([[0], [0], [10, 20, 30, 40], [40, 10, 30, 20], [10, 0]]))
+            spec["pre"] = draw(st.sampled_from([None, None, "reverse", "sort", "rotate"]))
     elif kind == "port":
         p = draw(c08.obj_case())
         p.pop("slow", None)
